@@ -894,3 +894,50 @@ def r7(cx):
 import witness
 witness.add(RS, 'C08.R5', ['c08_child_borrows_parent'],
             'compile-fail witness: the task run in a subshell cannot borrow parent state (E0597: Config::start requires a \'static task); the owning twin compiles')
+
+
+# ---------------------------------------------------------------- added after wave-2 seeded changes
+@RS.rule('C08.R8', 'K-PASS', 'a subshell that cannot be started leaves the parent as it was: the signal mask blocked for the fork is restored '
+         'on every exit of Config::start, including the fork-failure exit')
+def r8(cx):
+    F = cx.F
+    fn = 'yash_env::subshell::config::Config::start'
+    body = F.main_body(fn)
+    cx.fn(body.fn)
+    du = Q.DefUse(body)
+    fork = Q.find_calls(body, ['yash_env::Env::<S>::run_in_child_process'])
+    cx.require(len(fork) == 1, 'run_in_child_process call not found in Config::start')
+    fb, ft = fork[0]
+    restore = Q.find_calls(body, ['*::BlockSignals::restore_sigmask', '*::Sigmask::sigmask'])
+    restore = [(b, t) for b, t in restore if ft['to'] is not None and b in body.reachable(ft['to'])]
+    block = [(b, t) for b, t in Q.find_calls(body, ['*::BlockSignals::block_sigint_sigquit', '*::BlockSignals::block_signals', '*::Sigmask::sigmask'])
+             if body.dominates(b, fb) or fb in body.reachable(b)]
+    cx.site('%s: signals blocked before the fork at %s; fork at %s; mask restored at %s' % (
+        body.fn, [body.loc(t) for _, t in block], body.loc(ft), [body.loc(t) for _, t in restore]))
+    if not block:
+        return          # nothing is blocked around the fork any more: nothing to restore
+    if not restore:
+        cx.violation(fn, 'mask-never-restored', 'the parent blocks SIGINT/SIGQUIT for the fork and never restores its signal mask',
+                     loc=body.loc(ft))
+        return
+    # edges on which no mask was saved need no restore
+    none_edges = set()
+    for u in body.live_blocks():
+        ec = Q.edge_condition(F, body, du, u)
+        if ec and ec[0]['k'] == 'discr' and 'SavedMask' in (ec[0].get('ty') or '') or \
+                (ec and ec[0]['k'] == 'discr' and body.local_name(ec[0]['pl']['l']) == 'original_mask'):
+            for tgt, labs in ec[1].items():
+                if set(labs) == {('variant', 'None')}:
+                    none_edges.add((u, tgt))
+    p = body.shortest_path(ft['to'], set(body.return_blocks()), removed={b for b, _ in restore}, removed_edges=none_edges)
+    if p is not None:
+        cx.violation(fn, 'exit-with-blocked-mask', 'Config::start can return after the fork without restoring the signal mask it blocked '
+                     '(SIGINT/SIGQUIT for an asynchronous command without job control): when fork() fails the parent shell stays '
+                     'uninterruptible and every later child inherits the blocked mask', loc=body.loc(body.term(p[min(len(p) - 1, 1)])),
+                     path=Q.render_path(body, p))
+
+
+@RS.rule('C08.R9', 'K-PASS', "a pipeline member that cannot be started leaves none of the pipeline's descriptors open in the parent")
+def r9(cx):
+    from rules.C09 import r3 as c09_r3
+    c09_r3(cx)
